@@ -13,6 +13,7 @@ ENGINES = {
     "p_dbg": "exhaustive short API histories + rapidcheck histories on generated programs vs an explicit stop/enable model over the recorded uninterrupted run",
     "p_lr": "rapidcheck-generated small grammars x all bounded strings vs a chart-based CFG reference (membership, unique derivation fold, FIRST sets)",
     "p_macro": "rapidcheck-generated macro sets x token streams + exhaustive short streams / patterns vs reference matcher (chart), reference expander and reference LR(1) prefix analysis",
+    "p_det": "rapidcheck-generated compile/run sequences: fresh-process differential, multi-threaded differential under ASan and TSan, interleaved VM instances",
     "p_scan": "rapidcheck tape generator + exhaustive enumerators vs reference lexer / include resolver",
 }
 
@@ -409,6 +410,27 @@ PROPS["C12"] = dict(
     technique="property-based testing: exhaustive short patterns + rapidcheck random patterns vs a reference LR(1) prefix-conflict analysis and semantic cross-checks",
     level_text="Exploration with an exhaustive sub-space (all patterns up to length 3/4).",
     level_note="trusted: reference LR(1) (ref_lr1.hpp), chart recogniser",
+)
+
+
+PROPS["C18"] = dict(
+    harness="p_det",
+    phases=dict(quick=[rc(6, 150), rc(6, 150, flavour="tsan", seed_offset=100)],
+                thorough=[rc(8, 4000), rc(8, 4000, flavour="tsan", seed_offset=100)]),
+    rule=("cases: sequences of 2-5 compile inputs (valid programs with and without user macros/temporaries/loops, 2-edit mutants, token "
+          "soup; 1-3 files) and 1-8 threads. Oracle: canonical serialisation of everything compile() returns (instructions field-wise, "
+          "stack maps, both tables, errors, file requests) plus two bounded VM runs (plain; stepping with a breakpoint). (a) history "
+          "independence: each input compiled after the preceding ones equals its compilation as the very first call of a fresh process "
+          "(a fork server started before this process compiled anything); (b) N threads compiling/running the inputs concurrently give, "
+          "per input, the single-threaded serialisation - run under ASan and under ThreadSanitizer, any report is a violation; (c) a VM "
+          "stepped in lock step with a second VM on the same program (stepping, breakpoints, reset) behaves as alone. Non-trivial: >=2 "
+          "threads with >=2 distinct inputs one of which uses macros; or >=3 inputs single-threaded; distinct by hash of the sequence."),
+    min_nontrivial=dict(quick=300, thorough=8000),
+    assumptions=["ThreadSanitizer detects races between accesses that both execute, independent of timing; thread schedules are not enumerated",
+                 "inputs whose macro expansion grows explosively (known finding F11) are excluded by the same pre-screen as C02"],
+    technique="property-based testing: rapidcheck-generated compile/run sequences; differential against a fresh process and against single-threaded results, under ASan and TSan",
+    level_text="Exploration: history independence is attacked directly (fresh-process differential); data races are detected by TSan on executed code, not by enumerating interleavings.",
+    level_note="trusted: TSan/ASan runtimes; the serialisation covers every public field of CodegenResult",
 )
 
 
